@@ -2,7 +2,7 @@
 # Development helper: applies a seeded patch to the scratch worktree /tmp/mut-wt (never to /repo) and runs the check there.
 #   usage: tools/devseed.sh <dir with patch.diff> <Cxx> [tier]
 cd "$(dirname "$0")/.."
-D="$1"; ID="$2"; TIER="${3:-quick}"
+D="$(cd "$1" && pwd)"; ID="$2"; TIER="${3:-quick}"
 git -C /tmp/mut-wt checkout -q -- . && git -C /tmp/mut-wt apply "$D/patch.diff" || { echo "patch does not apply"; exit 2; }
 out=$(tools/devcheck.sh /tmp/mut-wt "$ID" "$TIER" 2>&1); code=$?
 git -C /tmp/mut-wt checkout -q -- .
